@@ -109,10 +109,17 @@ unix_to_dos(int64_t unix_time)
 void
 ntfs_to_unix(uint64_t ntfs, int64_t* secs, uint32_t* nsecs)
 {
-	ntfs -= NTFS_EPOC_TICKS;
-	lldiv_t tdiv = lldiv(ntfs, NTFS_TICKS);
-	*secs = tdiv.quot;
-	*nsecs = tdiv.rem * 100;
+	if (ntfs >= NTFS_EPOC_TICKS) {
+		/* All 64 bits count: no detour through a signed type. */
+		ntfs -= NTFS_EPOC_TICKS;
+		*secs = (int64_t)(ntfs / NTFS_TICKS);
+		*nsecs = (uint32_t)(ntfs % NTFS_TICKS) * 100;
+	} else {
+		lldiv_t tdiv = lldiv(
+		    -(long long)(NTFS_EPOC_TICKS - ntfs), NTFS_TICKS);
+		*secs = tdiv.quot;
+		*nsecs = tdiv.rem * 100;
+	}
 }
 
 /* Convert Unix sec/nsec to NTFS time */
